@@ -110,6 +110,7 @@ HARNESSES = {
     ],
     "C09": [
         H("ieee_cmp_flip", "data", "K.ieee_cmp_flip", complete=True),
+        H("ieee_max_min_commute", "data", "K.ieee_max_min_commute", complete=True),
         # "thresholds that are zero or negative never shorten a run": every per-infoset bound the loops sum is >= 0
         H("c02_cum_regret_formula_n1", "data", "C09.K.cum_regret.nonneg", bounded=B3),
         H("c02_cum_regret_formula_n2", "data", "C09.K.cum_regret.nonneg", bounded=B3),
